@@ -576,6 +576,68 @@ fn edge_dst_set<const N: usize>(t: &Value, line: usize, rep: &mut Report) {
     finish(t, line, fails, rep);
 }
 
+/// Keys whose equality is NOT reflexive (`f64`, class 0 is NaN) probed through a reference that
+/// ALIASES the stored key (taken from `keys()`): `K: PartialEq` is all the crate asks for, so every
+/// lookup must answer by `==` alone - a NaN key is never found, by any lookup method, and all of
+/// them agree with one another (C01 / C07); ordinary keys are found as the model says.
+fn flt(c: u8) -> f64 {
+    if c == 0 {
+        f64::NAN
+    } else {
+        c as f64
+    }
+}
+fn edge_alias<const N: usize>(t: &Value, line: usize, rep: &mut Report) {
+    let op = &t["o"];
+    let name = op["name"].as_str().unwrap();
+    if !matches!(name, "get" | "get_key_value" | "contains_key" | "s_contains" | "s_get") {
+        return;
+    }
+    let set_mode = name.starts_with("s_");
+    let c = op["c"].as_u64().unwrap_or(0) as u8;
+    let mut fails: Vec<Fail> = vec![];
+    let mut m = Map::<f64, u8, N>::new();
+    let mut st = Set::<f64, N>::new();
+    for e in t["s"].as_array().unwrap() {
+        let k = flt(e[0].as_u64().unwrap() as u8);
+        if set_mode {
+            st.insert(k);
+        } else {
+            m.insert(k, e[2].as_u64().unwrap() as u8);
+        }
+    }
+    let stored_here = t["s"].as_array().unwrap().iter().any(|e| e[0].as_u64().unwrap() as u8 == c);
+    let same = |k: &f64| k.to_bits() == flt(c).to_bits();
+    let answers: Option<Vec<bool>> = catch_unwind(AssertUnwindSafe(|| {
+        if set_mode {
+            match st.iter().find(|k| same(k)) {
+                Some(r) => vec![st.contains(r), st.get(r).is_some(), st.is_superset(&Set::<f64, 1>::from([*r]))],
+                None => vec![],
+            }
+        } else {
+            match m.keys().find(|k| same(k)) {
+                Some(r) => vec![m.contains_key(r), m.get(r).is_some(), m.get_key_value(r).is_some(), m.iter().any(|(k, _)| k == r)],
+                None => vec![],
+            }
+        }
+    }))
+    .ok();
+    match answers {
+        None => fails.push(Fail { props: if set_mode { "C07".into() } else { "C01".into() }, msg: "[f64 keys] a lookup through a reference to the stored key panicked".into() }),
+        Some(a) if !a.is_empty() => {
+            let want = stored_here && c != 0; // a NaN is never equal to anything, itself included
+            if a.iter().any(|x| *x != want) {
+                fails.push(Fail {
+                    props: if set_mode { "C07".into() } else { "C01".into() },
+                    msg: format!("[f64 keys, class {c}{}] lookups through a reference that aliases the stored key answer {a:?} (contains, get, get_key_value / superset, by ==); equality says {want}", if c == 0 { " = NaN" } else { "" }),
+                });
+            }
+        }
+        _ => {}
+    }
+    finish(t, line, fails, rep);
+}
+
 /// the same for sets of plain tagged elements; every other extend goes through `impl Extend<&T>`
 fn edge_tagged_set<const N: usize>(t: &Value, line: usize, rep: &mut Report) {
     let op = &t["o"];
@@ -1170,6 +1232,7 @@ pub fn run_shapes(table: &Table, set_mode: bool, rep: &mut Report) -> std::colle
             go!(TokenKey, edge_set_tk, t, idx, n);
             crate::replay::with_n!(n, edge_tagged_set, t, idx, rep);
             crate::replay::with_n!(n, edge_dst_set, t, idx, rep);
+            crate::replay::with_n!(n, edge_alias, t, idx, rep);
         } else {
             go!(Zst, edge_map_z, t, idx, n);
             go!(SmallCopy, edge_map_sc, t, idx, n);
@@ -1182,6 +1245,7 @@ pub fn run_shapes(table: &Table, set_mode: bool, rep: &mut Report) -> std::colle
             go!(TokenKey, edge_map_tk, t, idx, n);
             crate::replay::with_n!(n, edge_tagged, t, idx, rep);
             crate::replay::with_n!(n, edge_dst, t, idx, rep);
+            crate::replay::with_n!(n, edge_alias, t, idx, rep);
         }
         if (idx % 4 == 0 || name == "clone") && roomy_ok(t, n) && max_class(t) <= Large::MAX_CLASS {
             if set_mode {
